@@ -476,6 +476,8 @@ class Body:
         terms = []
         for (bi, si, rv, lhs) in ds[:6]:
             terms.append(self.def_term(bi, si, rv, depth + 1, expand_vars, seen))
+        if leaf is not None and leaf[0] == "var" and any(_is_loop_item(t) for t in terms):
+            return leaf  # loop variables keep their name
         if len(terms) == 1 and not partial:
             return terms[0]
         uniq = []
@@ -591,6 +593,12 @@ class Body:
 
 # ---------------------------------------------------------------- term utilities
 
+def _is_loop_item(t):
+    """term is (a projection of) the payload of Iterator::next()"""
+    while t[0] in ("field", "downcast", "deref", "ref"):
+        t = t[1]
+    return t[0] == "call" and t[1].endswith("::next") and len(t[2]) == 1
+
 def term_str(t, depth=0):
     if depth > 12:
         return "…"
@@ -687,7 +695,9 @@ def field_path(t):
     parts = []
     while True:
         k = t[0]
-        if k == "field":
+        if k == "field" and t[2].isdigit() and t[1][0] == "downcast" and t[1][2] in WRAP_VARIANTS:
+            t = t[1][1]
+        elif k == "field":
             parts.append(t[2])
             t = t[1]
         elif k in ("deref", "ref", "cast", "downcast", "await"):
